@@ -87,7 +87,9 @@ Record gcase := {
   gc_tmpl : list (list N);             (* slice names per phase of the template as just written *)
   gc_sets : list gset;                 (* every ObjectSet of the cluster *)
   gc_slices : list gslice;             (* every ObjectSlice at the instant of the collection *)
-  gc_deleted : list N                  (* observation: the Delete requests *)
+  gc_deleted : list N;                 (* observation: the Delete requests *)
+  gc_want : list (list N);             (* the chunks (by content) the chunker returned for each phase of the update *)
+  gc_got : list (list N)               (* observation: the contents of the slices the stored template names, per phase *)
 }.
 
 Definition gagree (c : gcase) : bool :=
@@ -99,11 +101,34 @@ Definition gmonitor (c : gcase) : bool :=
                     forallb (fun s => negb (g_listed s) || negb (existsb (N.eqb n) (concat (g_refs s)))) (gc_sets c))
           (gc_deleted c).
 
-Definition gjudge (c : gcase) : bool * bool := (gagree c, gmonitor c).
+(** The stored template decodes to the phases' chunks: slice by slice, in order, the content found under the
+    name the template references is the content that was to be stored (no name was reused for other content). *)
+Definition hmonitor (c : gcase) : bool := list_eqb (list_eqb N.eqb) (gc_got c) (gc_want c).
+
+Definition gjudge (c : gcase) : bool * bool * bool := (gagree c, gmonitor c, hmonitor c).
+
+Definition got_of (st : nstore N) (ls : list (list (N * N * bool))) : list (list N) :=
+  map (map (fun x => match content_of st (fst (fst x)) with Some c => c | None => 999999999 end)) ls.
+
+Theorem hmonitor_sound table st phases st' ls tmpl sets slices deleted :
+  chunk_phases N.eqb (tbl_hash table) st phases = (st', Some ls) ->
+  hmonitor {| gc_tmpl := tmpl; gc_sets := sets; gc_slices := slices; gc_deleted := deleted;
+              gc_want := phases; gc_got := got_of st' ls |} = true.
+Proof.
+  intros H. destruct (chunk_phases_lossless N.eqb N.eqb_eq (tbl_hash table) _ _ _ _ H) as [Hm _].
+  unfold hmonitor, got_of. cbn [gc_got gc_want]. apply list_list_eqb_N_spec. clear H.
+  revert ls Hm. induction phases as [|ph r IH]; intros [|l ls] Hm; try discriminate; [reflexivity|].
+  cbn [map] in *. injection Hm as Hl Hr. rewrite (IH _ Hr). f_equal.
+  clear -Hl. revert l Hl. induction ph as [|c cs IHc]; intros [|x l] Hl; try discriminate; [reflexivity|].
+  cbn [map] in *. injection Hl as Hx Hl. rewrite Hx, (IHc _ Hl). reflexivity.
+Qed.
 
 Theorem gmonitor_sound tmpl sets slices :
-  gmonitor {| gc_tmpl := tmpl; gc_sets := sets; gc_slices := slices; gc_deleted := slice_gc tmpl sets slices |} = true.
+  forall want got,
+  gmonitor {| gc_tmpl := tmpl; gc_sets := sets; gc_slices := slices; gc_deleted := slice_gc tmpl sets slices;
+              gc_want := want; gc_got := got |} = true.
 Proof.
+  intros want got.
   unfold gmonitor. cbn [gc_deleted gc_tmpl gc_sets]. apply forallb_forall. intros n Hn.
   destruct (gc_safe _ _ _ _ Hn) as [Ht Hs]. rewrite andb_true_iff. split.
   - apply negb_true_iff. destruct (existsb (N.eqb n) (concat tmpl)) eqn:E; [|reflexivity].
@@ -119,17 +144,20 @@ Record xcase := {
   xc_fixed : bool;       (* compare the implementation with sliced_pass_fixed (slices loaded before teardown) *)
   xc_force : bool; xc_store : store; xc_rv : N; xc_uid : N;
   xc_sets : list oset;   (* as stored: phases carry their inline objects only *)
+  xc_phases : list osphase; xc_nss : list (N * bool);   (* ObjectSetPhase objects and environment Namespaces *)
   xc_refs : refs_tbl; xc_slices : slstore; xc_srv : N;
   xc_kind : N; xc_ns : N; xc_name : N;
   (* observation of the run on the sliced world *)
-  xs_res : sres; xs_events : list xev; xs_post : store; xs_sets' : list oset; xs_rv' : N; xs_uid' : N;
-  xs_slices' : slstore; xs_srv' : N;
+  xs_res : sres; xs_events : list xev; xs_post : store; xs_sets' : list oset; xs_phases' : list osphase;
+  xs_rv' : N; xs_uid' : N; xs_slices' : slstore; xs_srv' : N;
   (* observation of the run on the twin world with the objects inline *)
-  xi_res : sres; xi_events : list sev; xi_post : store; xi_sets' : list oset; xi_rv' : N; xi_uid' : N
+  xi_res : sres; xi_events : list sev; xi_post : store; xi_sets' : list oset; xi_phases' : list osphase;
+  xi_rv' : N; xi_uid' : N
 }.
 
 Definition xc_world (c : xcase) : xworld :=
-  {| xw_sw := {| sw_w := {| w_store := xc_store c; w_rv := xc_rv c; w_uid := xc_uid c |}; sw_sets := xc_sets c; sw_phases := []; sw_nss := [] |};
+  {| xw_sw := {| sw_w := {| w_store := xc_store c; w_rv := xc_rv c; w_uid := xc_uid c |}; sw_sets := xc_sets c;
+                 sw_phases := xc_phases c; sw_nss := xc_nss c |};
      xw_refs := xc_refs c; xw_sl := {| xs_store := xc_slices c; xs_rv := xc_srv c |} |}.
 
 Definition xmodel (c : xcase) : xworld * list xev * sres :=
@@ -150,22 +178,23 @@ Definition slice_eqb (a b : slkey * slice) : bool :=
 Definition xagree_sliced (c : xcase) : bool :=
   let '(x, e, r) := xmodel c in
   sres_eqb r (xs_res c) && list_eqb xev_eqb e (xs_events c) && store_eqb (w_store (sw_w (xw_sw x))) (xs_post c) &&
-  list_eqb oset_eqb (sw_sets (xw_sw x)) (xs_sets' c) &&
+  list_eqb oset_eqb (sw_sets (xw_sw x)) (xs_sets' c) && phases_eqb (sw_phases (xw_sw x)) (xs_phases' c) &&
   (w_rv (sw_w (xw_sw x)) =? xs_rv' c) && (w_uid (sw_w (xw_sw x)) =? xs_uid' c) &&
   list_eqb slice_eqb (xs_store (xw_sl x)) (xs_slices' c) && (xs_rv (xw_sl x) =? xs_srv' c).
 
 (** The twin world is derived from the sliced one inside Coq; the inline run is judged by SetCorr.agree. *)
 Definition xinline_case (c : xcase) : scase :=
   {| sc_force := xc_force c; sc_store := xc_store c; sc_rv := xc_rv c; sc_uid := xc_uid c;
-     sc_sets := sw_sets (inline_of (xc_world c)); sc_kind := xc_kind c; sc_ns := xc_ns c; sc_name := xc_name c;
+     sc_sets := sw_sets (inline_of (xc_world c)); sc_phases := xc_phases c; sc_nss := xc_nss c; sc_kind := xc_kind c; sc_ns := xc_ns c; sc_name := xc_name c;
      sc_res := xi_res c; sc_events := xi_events c; sc_post := xi_post c; sc_sets' := xi_sets' c;
-     sc_rv' := xi_rv' c; sc_uid' := xi_uid' c |}.
+     sc_phases' := xi_phases' c; sc_rv' := xi_rv' c; sc_uid' := xi_uid' c |}.
 Definition xagree_inline (c : xcase) : bool := SetCorr.agree (xinline_case c).
 
 (** The property: provided every slice the ObjectSet references exists, the sliced run equals the inline
     run after erasing the slice requests: same requests on members and on the ObjectSet (finalizer, status
-    with revision, conditions, controllerOf, remote phases), same result, same final member store, same
-    final ObjectSets (with the slices inlined), same counters. *)
+    with revision, conditions, controllerOf, remote phases; requests on ObjectSetPhase objects of delegated
+    phases), same result, same final member store, same final ObjectSets (with the slices inlined), same
+    ObjectSetPhase objects, same counters. *)
 Definition xmonitor (c : xcase) : bool :=
   match find_set (xc_sets c) (xc_kind c) (xc_ns c) (xc_name c) with
   | None => true
@@ -174,6 +203,7 @@ Definition xmonitor (c : xcase) : bool :=
       (list_eqb sev_eqb (erase_slice_events (xs_events c)) (xi_events c) && sres_eqb (xs_res c) (xi_res c) &&
        store_eqb (xs_post c) (xi_post c) &&
        list_eqb oset_eqb (map (inline_set (xs_slices' c) (xc_refs c)) (xs_sets' c)) (xi_sets' c) &&
+       list_eqb osphase_eqb (xs_phases' c) (xi_phases' c) &&
        (xs_rv' c =? xi_rv' c) && (xs_uid' c =? xi_uid' c))
   end.
 
@@ -210,13 +240,32 @@ Proof. destruct c as [[] [] [] g]; cbn; now rewrite Z.eqb_refl. Qed.
 Lemma nn_eqb_refl x : nn_eqb x x = true.
 Proof. unfold nn_eqb. now rewrite !N.eqb_refl. Qed.
 
+Lemma pobj_eqb_refl p : pobj_eqb p p = true.
+Proof. unfold pobj_eqb. rewrite !N.eqb_refl, !eqb_reflx. now destruct (po_cp p). Qed.
+
+Lemma osphase_eqb_refl p : osphase_eqb p p = true.
+Proof.
+  unfold osphase_eqb, oid_eqb. rewrite !N.eqb_refl, !Z.eqb_refl, !eqb_reflx,
+    (list_eqb_refl oref_eqb oref_eqb_refl), (list_eqb_refl N.eqb N.eqb_refl), (list_eqb_refl pobj_eqb pobj_eqb_refl),
+    (list_eqb_refl cond_eqb cond_eqb_refl), (list_eqb_refl okey_eqb okey_eqb_refl). reflexivity.
+Qed.
+
+Lemma pev_eqb_refl e : pev_eqb e e = true.
+Proof.
+  destruct e as [n r|n r|n b r|n d|n o|n a o|n cs ks o]; cbn;
+    rewrite ?N.eqb_refl, ?eqb_reflx, ?(option_eqb_refl osphase_eqb osphase_eqb_refl),
+      ?(list_eqb_refl cond_eqb cond_eqb_refl), ?(list_eqb_refl okey_eqb okey_eqb_refl); try reflexivity.
+  now destruct d.
+Qed.
+
 Lemma sev_eqb_refl e : sev_eqb e e = true.
 Proof.
-  destruct e as [x|[a o|r cs ks rm f ok]]; cbn.
+  destruct e as [x|[a o|r cs ks rm f ok]|p]; cbn.
   - apply ev_eqb_refl.
   - now rewrite !eqb_reflx.
   - rewrite Z.eqb_refl, (list_eqb_refl cond_eqb cond_eqb_refl), (list_eqb_refl okey_eqb okey_eqb_refl),
       (list_eqb_refl nn_eqb nn_eqb_refl), (option_eqb_refl N.eqb N.eqb_refl), eqb_reflx. reflexivity.
+  - apply pev_eqb_refl.
 Qed.
 
 Lemma sres_eqb_refl r : sres_eqb r r = true.
@@ -227,8 +276,6 @@ Proof. unfold store_sub. apply forallb_forall. intros kv _. apply option_eqb_ref
 Lemma store_eqb_refl s : store_eqb s s = true.
 Proof. unfold store_eqb. now rewrite store_sub_refl. Qed.
 
-Lemma pobj_eqb_refl p : pobj_eqb p p = true.
-Proof. unfold pobj_eqb. rewrite !N.eqb_refl, !eqb_reflx. now destruct (po_cp p). Qed.
 Lemma phase_eqb_refl p : phase_eqb p p = true.
 Proof. unfold phase_eqb. now rewrite N.eqb_refl, eqb_reflx, (list_eqb_refl pobj_eqb pobj_eqb_refl). Qed.
 Lemma lifecycle_eqb_refl l : lifecycle_eqb l l = true.
@@ -246,12 +293,13 @@ Definition xcase_of (fixed force : bool) (x : xworld) (kind ns name : N)
   let '(x', evs, r) := sl in
   let '(sw', ievs, ir) := il in
   {| xc_fixed := fixed; xc_force := force; xc_store := w_store (sw_w (xw_sw x)); xc_rv := w_rv (sw_w (xw_sw x));
-     xc_uid := w_uid (sw_w (xw_sw x)); xc_sets := sw_sets (xw_sw x); xc_refs := xw_refs x;
+     xc_uid := w_uid (sw_w (xw_sw x)); xc_sets := sw_sets (xw_sw x);
+     xc_phases := sw_phases (xw_sw x); xc_nss := sw_nss (xw_sw x); xc_refs := xw_refs x;
      xc_slices := xs_store (xw_sl x); xc_srv := xs_rv (xw_sl x); xc_kind := kind; xc_ns := ns; xc_name := name;
-     xs_res := r; xs_events := evs; xs_post := w_store (sw_w (xw_sw x')); xs_sets' := sw_sets (xw_sw x');
+     xs_res := r; xs_events := evs; xs_post := w_store (sw_w (xw_sw x')); xs_sets' := sw_sets (xw_sw x'); xs_phases' := sw_phases (xw_sw x');
      xs_rv' := w_rv (sw_w (xw_sw x')); xs_uid' := w_uid (sw_w (xw_sw x'));
      xs_slices' := xs_store (xw_sl x'); xs_srv' := xs_rv (xw_sl x');
-     xi_res := ir; xi_events := ievs; xi_post := w_store (sw_w sw'); xi_sets' := sw_sets sw';
+     xi_res := ir; xi_events := ievs; xi_post := w_store (sw_w sw'); xi_sets' := sw_sets sw'; xi_phases' := sw_phases sw';
      xi_rv' := w_rv (sw_w sw'); xi_uid' := w_uid (sw_w sw') |}.
 
 Lemma xmonitor_of_equiv fixed force x kind ns name x' evs r :
@@ -263,13 +311,14 @@ Lemma xmonitor_of_equiv fixed force x kind ns name x' evs r :
 Proof.
   intros H. unfold xmonitor, xcase_of.
   destruct (objectset_pass force (inline_of x) kind ns name) as [[sw' ievs] ir] eqn:E.
-  cbn [xc_sets xc_kind xc_ns xc_name xc_slices xc_refs xs_events xi_events xs_res xi_res xs_post xi_post xs_slices' xs_sets' xi_sets'
+  cbn [xc_sets xc_kind xc_ns xc_name xc_slices xc_refs xs_events xi_events xs_res xi_res xs_post xi_post xs_slices' xs_sets' xi_sets' xs_phases' xi_phases'
        xs_rv' xi_rv' xs_uid' xi_uid'].
   destruct (find_set (sw_sets (xw_sw x)) kind ns name) as [mem|] eqn:Hf; [|reflexivity].
   destruct (slices_exist (xs_store (xw_sl x)) (xw_refs x) mem) eqn:Hex; [|reflexivity]. cbn [negb orb].
   destruct (H mem eq_refl Hex) as [Heq Hrefs]. injection Heq as -> -> ->.
   unfold inline_of, inline_sw. cbn [sw_w sw_sets]. rewrite Hrefs.
-  now rewrite (list_eqb_refl sev_eqb sev_eqb_refl), sres_eqb_refl, store_eqb_refl, (list_eqb_refl oset_eqb oset_eqb_refl), !N.eqb_refl.
+  now rewrite (list_eqb_refl sev_eqb sev_eqb_refl), sres_eqb_refl, store_eqb_refl, (list_eqb_refl oset_eqb oset_eqb_refl),
+    (list_eqb_refl osphase_eqb osphase_eqb_refl), !N.eqb_refl.
 Qed.
 
 (** For the repair candidate the monitor accepts every pass, in every lifecycle state ... *)
